@@ -1,9 +1,13 @@
 #!/bin/sh
-# Runs every check of MANIFEST.json in the given tier (default quick); prints one line per check.
+# tools/run_all.sh [quick|thorough] [Cxx ...]: runs the named checks (default: every check of MANIFEST.json)
+# in the given tier (default quick); prints one line per check.
 cd "$(dirname "$0")/.."
 tier=${1:-quick}
+[ $# -gt 0 ] && shift
+props="$*"
+[ -z "$props" ] && props=$(python3 -c "import json;print(' '.join(c['property_id'] for c in json.load(open('MANIFEST.json'))['checks']))")
 rc=0
-for p in $(python3 -c "import json;print(' '.join(c['property_id'] for c in json.load(open('MANIFEST.json'))['checks']))"); do
+for p in $props; do
   s=$(date +%s)
   out=$(./check $p $tier 2>>/tmp/run_all_$tier.err); code=$?
   e=$(date +%s)
